@@ -73,7 +73,7 @@ def run(prog, rep, tier):
     r6_2(prog, rep, pp)
     r6_3(prog, rep, pp)
     n = shared.ownership_rule(prog, rep, "R6.4")
-    if n < 12:
+    if n is not None and n < 12:
         raise AnalysisError(f"R6.4: only {n} Term/GroupSpecificTerm constructor sites found in terms.py (floor 12)")
     r6_5(prog, rep, pp)
     r6_6(prog, rep, pp)
@@ -540,3 +540,8 @@ def r6_6(prog, rep, pp):
         obl(rep, f, rets[0] if rets else f.node, "R6.6", ok and not bad,
             f"{f.qual.split('.', 2)[2]}: every returned value depends on the new frame `{f.params[1]}`", "",
             f"returns {bad} which do not depend on the new frame (cached training data is returned)" if bad else "a path returns nothing")
+
+
+from ..core import guard_rules  # noqa: E402
+
+guard_rules(globals())
